@@ -635,7 +635,7 @@ def _replay(chk, path):
     cj = r['case']
     if r.get('kind') == 'adaptive-matrix':
         from props import c12
-        frames = [np.array(f, dtype=float).reshape(len(f), -1) for f in cj['frames']]
+        frames = linkgen.frames_from_json(cj['frames'])
         ndim = max([f.shape[1] for f in frames if f.size] or [1])
         c = dict(frames=[f.reshape(len(f), ndim) for f in frames], sr=Fraction(cj['search_range']), memory=cj['memory'], ndim=ndim, max_size=cj['max_size'],
                  strategy=cj['link_strategy'], step=Fraction(cj['adaptive_step']), stop_rel=Fraction(cj['adaptive_stop_rel']))
@@ -654,7 +654,7 @@ def _replay(chk, path):
             chk.violation('%s: %s' % (name.split('/')[0], c12.CODES.get(code, code)), c12.CODES.get(code, code), dict(kind='adaptive-matrix', run=name, code=code, case=c12.jsonable(c, out)))
         return
     sr = tuple(Fraction(x) for x in cj['search_range']) if isinstance(cj['search_range'], list) else Fraction(cj['search_range'])
-    frames = [np.array(f, dtype=float).reshape(len(f), -1) for f in cj['frames']]
+    frames = linkgen.frames_from_json(cj['frames'])
     ndim = max([f.shape[1] for f in frames if f.size] or [2])
     frames = [f.reshape(len(f), ndim) for f in frames]
     c = dict(frames=frames, sr=sr, memory=cj['memory'], max_size=int(cj.get('max_size') or linkgen.LIMIT), strategy='recursive', ndim=ndim)
